@@ -119,6 +119,8 @@ func spinWatch(onSpin func(spinInfo)) {
 			if fn == "" {
 				// nothing of the system under test is on a running stack: not a spin of file.d (harness or runtime trouble)
 				fmt.Fprintf(os.Stderr, "simharness: no scheduling step for %v and no running goroutine inside file.d:\n%s\n", spinLimit, buf)
+				cj, _ := json.Marshal(info.Cfg)
+				os.WriteFile(fmt.Sprintf("/var/tmp/verif-stall-%d.txt", os.Getpid()), []byte(fmt.Sprintf("harness %s step %d\nconfig %s\n\n%s", info.H.Name(), sim.Steps(), cj, buf)), 0o644)
 				os.Exit(3)
 			}
 			onSpin(spinInfo{Signature: "spin/" + fn, Steps: sim.Steps(), Info: info,
